@@ -1,0 +1,82 @@
+//go:build verif
+
+// Contracts for r1.Interval (property C19): the interval algebra is sound with respect to point
+// membership. Exact IEEE-754 semantics (SMT floating-point theory): every float64 bit pattern of the
+// operands and of the ghost probe point p is covered, no real-number idealisation. Comment-only.
+
+package r1
+
+//@ property C19
+
+//@ spec func vcOK(i Interval) bool = !vcIsNaN(i.Lo) && !vcIsNaN(i.Hi)
+
+//@ func (i Interval) Union(other Interval) Interval
+//@   inline
+//@   fp
+//@   ghost p float64
+//@   requires vcOK(i) && vcOK(other) && !vcIsNaN(p)
+//@   ensures [sound] i.Contains(p) || other.Contains(p) ==> result.Contains(p)
+//@   ensures [ok] vcOK(result)
+//@   ensures [empty] i.IsEmpty() && other.IsEmpty() ==> result.IsEmpty()
+
+//@ func (i Interval) Intersection(j Interval) Interval
+//@   inline
+//@   fp
+//@   ghost p float64
+//@   requires vcOK(i) && vcOK(j) && !vcIsNaN(p)
+//@   ensures [sound] i.Contains(p) && j.Contains(p) ==> result.Contains(p)
+//@   ensures [tight] result.Contains(p) ==> i.Contains(p) && j.Contains(p)
+//@   ensures [ok] vcOK(result)
+
+//@ func (i Interval) ContainsInterval(oi Interval) bool
+//@   inline
+//@   fp
+//@   ghost p float64
+//@   requires vcOK(i) && vcOK(oi) && !vcIsNaN(p)
+//@   ensures [sound] result && oi.Contains(p) ==> i.Contains(p)
+//@   ensures [complete] !result ==> (oi.Contains(oi.Lo) && !i.Contains(oi.Lo)) || (oi.Contains(oi.Hi) && !i.Contains(oi.Hi))
+
+//@ func (i Interval) InteriorContainsInterval(oi Interval) bool
+//@   inline
+//@   fp
+//@   ghost p float64
+//@   requires vcOK(i) && vcOK(oi) && !vcIsNaN(p)
+//@   ensures [sound] result && oi.Contains(p) ==> i.InteriorContains(p)
+
+//@ func (i Interval) Intersects(oi Interval) bool
+//@   inline
+//@   fp
+//@   ghost p float64
+//@   requires vcOK(i) && vcOK(oi) && !vcIsNaN(p)
+//@   ensures [complete] i.Contains(p) && oi.Contains(p) ==> result
+//@   ensures [sound] result ==> (i.Contains(oi.Lo) && oi.Contains(oi.Lo)) || (i.Contains(i.Lo) && oi.Contains(i.Lo))
+
+//@ func (i Interval) InteriorIntersects(oi Interval) bool
+//@   inline
+//@   fp
+//@   ghost p float64
+//@   requires vcOK(i) && vcOK(oi) && !vcIsNaN(p)
+//@   ensures [complete] i.InteriorContains(p) && oi.Contains(p) ==> result
+
+//@ func (i Interval) AddPoint(p float64) Interval
+//@   inline
+//@   fp
+//@   ghost q float64
+//@   requires vcOK(i) && !vcIsNaN(p) && !vcIsNaN(q)
+//@   ensures [added] result.Contains(p)
+//@   ensures [kept] i.Contains(q) ==> result.Contains(q)
+//@   ensures [ok] vcOK(result)
+
+//@ func (i Interval) ClampPoint(p float64) float64
+//@   inline
+//@   fp
+//@   requires vcOK(i) && !vcIsNaN(p) && !i.IsEmpty()
+//@   ensures [inside] i.Contains(result)
+//@   ensures [fixed] i.Contains(p) ==> result == p
+
+//@ func (i Interval) Expanded(margin float64) Interval
+//@   inline
+//@   fp
+//@   ghost p float64
+//@   requires vcOK(i) && !vcIsNaN(p) && margin >= 0 && margin <= 1e300
+//@   ensures [kept] i.Contains(p) ==> result.Contains(p)
